@@ -20,7 +20,7 @@ theorem lpm_eq_none_iff (s : List Prefix) (ip : Ip) :
       by_cases hc : p.contains ip = true
       · simp [hc]
       · simp only [hc, Bool.false_eq_true, ↓reduceIte, true_iff]
-        exact ⟨Bool.eq_false_iff.2 hc, this⟩
+        exact ⟨trivial, this⟩
     | some k =>
       have : ¬ ∀ p ∈ ps, p.contains ip = false := fun hh => by rw [ih.2 hh] at h; cases h
       by_cases hc : (p.contains ip && decide (k < p.len)) = true <;> simp [hc, this]
